@@ -34,7 +34,7 @@ RANGE_WITNESSES = [
 ]
 
 
-def run(ctx):
+def _run_rules(ctx):
     rep, f = ctx.rep, ctx.facts
     rep.assume('NOT DECIDED: that the 3 searched shells cover the cutoff / the truncated sum has converged (depends on cell '
                'parameters); representation independence follows from R1-R3 only up to that')
@@ -222,3 +222,10 @@ def total_shapes_is_sum_of_multiplicities(f, ts):
         if [c for c in pc if c[0] != 'assume'] or not inc.equals(want):
             return False, 'the per-site term is %s (conditions %s), not site.multiplicity()' % (inc.canon()[:100], [c for c in pc if c[0] != 'assume'][:2])
     return True, 'total_shapes = sum over sites of multiplicity()'
+
+
+def run(ctx):
+    _run_rules(ctx)
+    from .common import import_obligations
+    # moving a particle keeps its parameters (C13.R6)
+    import_obligations(ctx, 'C13', 'PAIR', only_rules={'R6'}, floor=4)
